@@ -82,7 +82,19 @@ func loadFindings() {
 
 // Avoiding reports whether sig names an open finding whose input class the
 // generators/runners should stay away from (never true for witness plans).
-func Avoiding(p *Plan, sig string) bool { return !p.NoAvoid && openSigs[sig] }
+func Avoiding(p *Plan, sig string) bool {
+	if p.NoAvoid && lastComp(sig) == lastComp(p.ExpectSig) {
+		return false // a witness exercises its own finding's input class; the other open findings stay avoided
+	}
+	return openSigs[sig]
+}
+
+func lastComp(s string) string {
+	if i := strings.LastIndexByte(s, '/'); i >= 0 {
+		return s[i+1:]
+	}
+	return s
+}
 
 // ---- watchdog ----------------------------------------------------------------
 
